@@ -15,7 +15,11 @@ Import ListNotations.
 
 Definition save_steps : nat := 3.     (* open / write / close through aiofiles *)
 
-Inductive ekind := EConnect | EBody | EDisconnect | ECancelled.
+(* EOwnerCancelled: the task that owns the context was cancelled from outside
+   (task.cancel(), an enclosing timeout) while it was in the body: that
+   CancelledError is the exception that must leave.  ECancelled: the SAVER's
+   CancelledError leaking out of stop() — must never leave. *)
+Inductive ekind := EConnect | EBody | EDisconnect | ECancelled | EOwnerCancelled.
 
 Inductive mpc :=
 | MLoad                     (* persistence.load() *)
@@ -55,7 +59,9 @@ Inductive choice :=
                                step that can fail (connect, body, disconnect) *)
 | CSaver                    (* the saver task takes its next step *)
 | CTimer                    (* SAVE_INTERVAL has elapsed for the sleeping saver *)
-| CMutate.                  (* the registry changes (received messages) while the body runs *)
+| CMutate                   (* the registry changes (received messages) while the body runs *)
+| CCancelOwner              (* the task owning the context is cancelled while in the body *)
+| CReenter.                 (* the context has been left: the same Gateway object is entered again *)
 
 Definition set_m (s : lstate) (m : mpc) : lstate :=
   {| l_m := m; l_s := l_s s; l_cancel := l_cancel s; l_reg := l_reg s; l_file := l_file s;
@@ -164,6 +170,26 @@ Definition lstep (guarded : bool) (s : lstate) (c : choice) : lstate :=
           {| l_m := l_m s; l_s := l_s s; l_cancel := l_cancel s; l_reg := S (l_reg s); l_file := l_file s;
              l_final := l_final s; l_disc := l_disc s; l_connected := l_connected s; l_exc := l_exc s;
              l_saves := l_saves s |}
+      | _ => s
+      end
+  | CCancelOwner =>
+      match l_m s with
+      | MBody =>
+          (* CancelledError is thrown into the body: __aexit__ runs as for any exception *)
+          {| l_m := MDisconnect; l_s := l_s s; l_cancel := l_cancel s; l_reg := l_reg s; l_file := l_file s;
+             l_final := l_final s; l_disc := l_disc s; l_connected := l_connected s;
+             l_exc := Some EOwnerCancelled; l_saves := l_saves s |}
+      | _ => s
+      end
+  | CReenter =>
+      match l_m s with
+      | MDone =>
+          (* __aenter__ again: load reads the file (a partial file fails to load: the
+             registry stays), no saver task exists, per-session observations restart *)
+          {| l_m := MLoad; l_s := SNone; l_cancel := false;
+             l_reg := (match l_file s with FHolds v => v | FPartial => l_reg s end);
+             l_file := l_file s; l_final := l_final s; l_disc := 0; l_connected := false;
+             l_exc := None; l_saves := l_saves s |}
       | _ => s
       end
   end.
